@@ -315,7 +315,9 @@ func (g *gen) pos(n ast.Node) string {
 	return fmt.Sprintf("%s:%d", rel, p.Line)
 }
 func (g *gen) def(name, typ, term, comment string) {
-	fmt.Fprintf(&g.buf, "(* %s *)\nDefinition %s : %s := %s.\n", comment, name, typ, term)
+	// keep comment text from opening/closing Coq comments or strings
+	c := strings.NewReplacer("(*", "( *", "*)", "* )", "\"", "'").Replace(comment)
+	fmt.Fprintf(&g.buf, "(* %s *)\nDefinition %s : %s := %s.\n", c, name, typ, term)
 }
 func (g *gen) write() {
 	p := filepath.Join(*outDir, g.name+".v")
